@@ -79,6 +79,20 @@ CLAIMED = {
         note=TB + "callees by contract as in C01; programme closed forms proved for coefficient lists up to length 4 (quick) / 6 (thorough) - bounded part; "
                   "three defects of the isothermal models were repaired (fix commits 049e8e4, b53bf42, 77ae1e5)",
         technique="contracts + loop recurrence from the real body + lemmas over the step spec; ring normal form / z3"),
+    'C18': dict(
+        level='proof', ref='DESIGN.md 3/C18',
+        text="Admissibility invariant of the four process recurrences: a normal return means every iteration k<N completed, so the path condition of the generic iteration "
+             "holds for every reported step; from it: feed mass > 0 (head guard, or base + tail guard), feed temperature > 0, feed and permeate mass fractions in [0,1] "
+             "(constructor validation), for all configurations. On the original tree the mass/temperature obligations are refuted and replayed natively (m=[1,-21,-58,...]).",
+        note=TB + "finiteness (NaN/inf) outside the real-number model; initial temperature of isothermal models admissible by the quantifier; repaired by fix commit 44243de",
+        technique="inductive invariant over the loop recurrence extracted from the real body; z3; native replay with coarse steps"),
+    'C11': dict(
+        level='proof', ref='DESIGN.md 3/C11',
+        text="Relational (two-run) lemmas proved on the recurrence extracted from each process function: with (area, feed amount) x c and the coupling m'_k = c m_k, every "
+             "intensive quantity of step k+1 is unchanged and masses/heats scale by c, and the scaled run satisfies the same path condition; with area x k and step / k "
+             "(no programme) every per-step state is unchanged; the step-0 flux term does not mention area, feed amount or step length.",
+        note=TB + "coupling at step k is the induction hypothesis, prefix values the base case (induction principle trusted)",
+        technique="substitution instances of the extracted recurrence (self-composition) discharged by ring normal form / z3"),
 }
 
 NOT_YET = "check under construction (see DESIGN.md section 7); not claimed until every obligation is in place"
